@@ -17,6 +17,9 @@ One program `c<k>` = two modules `c<k>a`, `c<k>b` (all functions exported, cross
   mr<j> / mc<j>  multi-result functions over every 1-, 2- and 3-tuple of result types (i64, narrow ints, f, d, ld) the
                  convention can return (rax:rdx, xmm0:xmm1, st0:st1); `mc` makes the multi-result call from MIR, the plan
                  command `callm` from C (the harness reads the result registers itself)
+  xb0 / xb1      one buffer passed as blk:<s1> then blk:<s2> (24..72 bytes) to native C callees through prototypes that
+                 differ only in the block size; smaller first in module a, larger first in module b (whichever runs
+                 first in a context creates the interpreter's call-out stub); plan command `callx` carries a C reference
   bf<j> / bc<j>  functions with a by-value block parameter (blk, blk1..blk4, rblk; sizes 8..40) preceded by 0..7
                  integer and 0..9 double parameters and followed by an integer and a double one; `bc` passes the
                  block from MIR, the plan command `callb` from C (the harness places the arguments per the psABI)
@@ -34,7 +37,8 @@ PTAB = "ptab: proto i64, p:t, i64:n, i64:a, d:x"
 PW = "pw: proto i64, " + ", ".join(f"i64:a{i}" for i in range(8)) + ", " + ", ".join(f"d:x{i}" for i in range(9))
 WHDR = "i64, " + ", ".join(f"i64:a{i}" for i in range(8)) + ", " + ", ".join(f"d:x{i}" for i in range(9))
 HHDR = "i64, i64:a0, i64:a1, d:x0"
-EXTS = {"ext0", "ext1", "ext2", "ext4", "extd", "extv", "extp", "extcb", "extcbw", "exttab"}
+EXTS = {"ext0", "ext1", "ext2", "ext4", "extd", "extv", "extp", "extcb", "extcbw", "exttab", "extb24", "extb40", "extb56", "extb72"}
+XB_SIZES = [24, 40, 56, 72]
 
 
 class Mod:
@@ -295,11 +299,23 @@ def multires_caller(r, name, callee, proto, ts):
     return L
 
 
+def xblk_func(name, s1, s2):
+    """one buffer passed by value as blk:<s1> and then as blk:<s2> to native callees: two call prototypes that differ
+    only in the size of the block (the interpreter caches its call-out stubs per prototype shape)"""
+    L = [f"{name}: func {HHDR}", "  local i64:p, i64:t, i64:r1, i64:r2, i64:r", "  alloca p, 96"]
+    for i in range(10):
+        L += [f"  add t, a0, {1000003 * (i + 1)}", "  xor t, t, a1", f"  mov i64:{8 * i}(p), t"]
+    L += [f"  call pe{s1}, extb{s1}, r1, blk:{s1}(p), a1", f"  call pe{s2}, extb{s2}, r2, blk:{s2}(p), a0",
+          "  mul r, r1, 31", "  xor r, r, r2", "  ret r", "  endfunc"]
+    return L
+
+
 class C03Prog:
     def __init__(self, name, mods, entries, helpers_sig, wides, stats, blocks=(), multis=()):
         self.name, self.mods, self.entries, self.hfuncs, self.wides, self.stats = name, mods, entries, helpers_sig, wides, stats
         self.blocks = list(blocks)   # (function, ni, nf, cls, size)
         self.multis = list(multis)   # (function, result types)
+        self.xblks = []              # (function, s1, s2)
 
     def text(self):
         return "".join(m.text() for m in self.mods)
@@ -386,6 +402,16 @@ def gen_c03_program(rng, name, opts=None, many_doubles=False, block_positions=()
         caller_mod.raw(block_caller(rng, bc, bf, pb, ni, nf, cls, size), bc)
         blocks.append((bf, ni, nf, cls, size))
         bcs.append(bc)
+    # block arguments of two sizes to native callees, smaller first in one function, larger first in the other
+    xbs = []
+    sz = sorted(permute(rng, XB_SIZES)[:2])
+    for j, (mod, (s1, s2)) in enumerate([(A, (sz[0], sz[1])), (B, (sz[1], sz[0]))]):
+        xb = f"{name}{'ab'[j]}_xb{j}"
+        for sx in (s1, s2):
+            mod.protos.add(f"pe{sx}: proto i64, blk:{sx}(s), i64:t")
+            mod.imports.add(f"extb{sx}")
+        mod.raw(xblk_func(xb, s1, s2), xb)
+        xbs.append((xb, s1, s2))
     # multi-result functions (callee in one module, MIR caller in the other)
     multis, mcs = [], []
     for j, ts in enumerate(result_tuples):
@@ -398,7 +424,7 @@ def gen_c03_program(rng, name, opts=None, many_doubles=False, block_positions=()
         caller_mod.raw(multires_caller(rng, mc, mr, pm, ts), mc)
         multis.append((mr, ts))
         mcs.append(mc)
-    hs = a_h + b_h + [r0, ma, mb, na, ap, cb, cw, lr] + bcs + mcs
+    hs = a_h + b_h + [r0, ma, mb, na, ap, cb, cw, lr] + bcs + mcs + [x[0] for x in xbs]
     eo = dict(opts or {})
     if many_doubles:
         eo.update(ndbl=12)
@@ -417,7 +443,10 @@ def gen_c03_program(rng, name, opts=None, many_doubles=False, block_positions=()
     stats["lref_tables"] = 1
     stats["block_param_funcs"] = len(blocks)
     stats["multi_result_funcs"] = len(multis)
-    return C03Prog(name, [A, B], [ea, eb], [r0, ma, mb, na, ap, cb, cw, lr, a_h[0], b_h[0]] + bcs + mcs, [w], stats, blocks, multis)
+    stats["native_block_size_pairs"] = len(xbs)
+    P = C03Prog(name, [A, B], [ea, eb], [r0, ma, mb, na, ap, cb, cw, lr, a_h[0], b_h[0]] + bcs + mcs, [w], stats, blocks, multis)
+    P.xblks = xbs
+    return P
 
 
 HARGS = [(3, 5, 1.0), (7, 0xffffffffffffffff, -2.5), (0x123456789, 12, 1e300), (6, 1 << 40, 0.0)]
@@ -442,6 +471,9 @@ def calls_for(P, argsets, rng, nh=5):
     for mc in [h for h in P.hfuncs if "_mc" in h]:   # every MIR-level multi-result call is made at least once
         a = rng.choice(HARGS)
         calls.append(f"callh {mc} {a[0]:x} {a[1]:x} {mirgen_dbits(a[2]):x}")
+    for (xb, s1, s2) in P.xblks:
+        a = rng.choice(HARGS)
+        calls.append(f"callx {xb} {s1} {s2} {a[0]:x} {a[1]:x}")
     for (bf, ni, nf, cls, size) in P.blocks:
         calls.append(f"callb {bf} {ni} {nf} {cls} {size} {rng.below(1 << 30):x}")
     return calls
